@@ -257,7 +257,7 @@ pub fn check(prop: &str, tier: &str) -> i32 {
         }
     }
     // one long deterministic path on a single instance pair
-    let (n_enc, n_ctx, n_key, n_rekey) = if thorough { (20_000, 20_000, 2_000, 200) } else { (3_000, 3_000, 400, 30) };
+    let (n_enc, n_ctx, n_key, n_rekey) = if thorough { (70_000, 70_000, 2_000, 300) } else { (3_000, 5_000, 400, 30) };
     let mut c = fresh_ctx(&base_msk, &base_mpk);
     let mut long_fields = 0u64;
     let mut seen: HashMap<u128, u32> = HashMap::new();
